@@ -61,13 +61,15 @@ def run_shard(prop, tier, seed, shard, nshards, workdir, out, only=None):
     traced = mod.setup(run) or []
     trace.watch(traced)
     try:
-        for name, (count, case) in mod.WORKLOADS.items():
+        for name, wl in mod.WORKLOADS.items():
+            count, case = wl[0], wl[1]
+            everywhere = len(wl) > 2 and wl[2]     # run in every shard (cross-process comparisons)
             if only and name != only[0]:
                 continue
             n = count(tier)
             idxs = [only[1]] if only else range(n)
             for i in idxs:
-                if not only and not run.mine(i):
+                if not only and not everywhere and not run.mine(i):
                     continue
                 if run.out_of_time():
                     break
@@ -160,6 +162,12 @@ def check(prop, tier, replay=None):
         for k, (ex, tot) in r.get("lines", {}).items():
             a = lines.setdefault(k, [0, tot])
             a[0] = max(a[0], ex)
+    pm = getattr(mod, "post_merge", None)
+    if pm and not replay:
+        for mech, w in pm(m, tier):
+            m["viol"].setdefault(mech, w)
+            m["viol_count"][mech] += 1
+            m["counters"][f"{w.get('monitor', 'post-merge')}|violated"] += 1
     findings = runtime.load_known_findings()
     viols, known = [], []
     for mech, w in sorted(m["viol"].items()):
